@@ -197,6 +197,7 @@ structure OpShape {σ} (route : B) (o : Operation σ) : Prop where
   route : ∀ n ∈ routeParamNames route, (s "path", n) ∈ pairsOf o.params
   respsNe : o.resps ≠ []
   resps : ∀ r ∈ o.resps, validResponseCode r.code = true ∧ r.description ≠ []
+  styles : ∀ p ∈ o.params, styleOK p.loc p.style = true
 
 theorem pathParams_ok {path : B} (hv : validatePath path = true) : ∀ p ∈ extractPathParams path, ParamOK (σ := IR) p := by
   intro p hp
@@ -329,7 +330,11 @@ theorem buildOperation_shape (env : Env) (henv : EnvNamed env) (op : OpIn) (st :
     · simp only [Except.ok.injEq, Prod.mk.injEq] at h
       obtain ⟨rfl, _, _⟩ := h
       obtain ⟨p1, p2, p3⟩ := opParams_shape env none op.path st hv (fun m hm => by cases hm)
-      exact ⟨p1, p2, p3, by simp [defaultResps], hdef⟩
+      refine ⟨p1, p2, p3, by simp [defaultResps], hdef, ?_⟩
+      intro p hp
+      simp only [extractPathParams, mem_map] at hp
+      obtain ⟨n, _, rfl⟩ := hp
+      simp [styleOK]
     · have hmd : ∀ m, op.req.bind (introspect env) = some m → ∀ ps ∈ m.params, SpecOK ps := by
         intro m hm
         cases hreq : op.req with
@@ -340,11 +345,17 @@ theorem buildOperation_shape (env : Env) (henv : EnvNamed env) (op : OpIn) (st :
       obtain ⟨p1, p2, p3⟩ := opParams_shape env (op.req.bind (introspect env)) op.path st hv hmd
       split at h
       · cases h
+      next hstyle =>
+      have hst : ∀ p ∈ (opParams env (op.req.bind (introspect env)) (extractPathParams op.path) st).1,
+          styleOK p.loc p.style = true := by
+        simpa [all_eq_true] using hstyle
+      split at h
+      · cases h
       next rr heq =>
         simp only [Except.ok.injEq, Prod.mk.injEq] at h
         obtain ⟨rfl, _, _⟩ := h
         obtain ⟨_, g2⟩ := genResps_shape env _ _ rr.1 rr.2 (by rw [heq])
-        refine ⟨p1, p2, p3, ?_, ?_⟩
+        refine ⟨p1, p2, p3, ?_, ?_, hst⟩
         · simp only []
           split
           · simp [defaultResps]
